@@ -97,6 +97,47 @@ theorem wholeLines_idem (s : Bytes) : wholeLines (wholeLines s) = wholeLines s :
         simp only [List.contains_cons, this, Bool.or_true, ↓reduceIte]
     · rfl
 
+theorem wholeLines_eq_nil_iff (s : Bytes) : wholeLines s = [] ↔ s.contains NL = false := by
+  cases s with
+  | nil => simp [wholeLines]
+  | cons c r =>
+    rw [wholeLines_cons]
+    cases h : (c :: r).contains NL <;> simp
+
+/-- `wholeLines s` is the prefix of `s` that ends at its last newline: what is behind it holds no
+    newline … -/
+theorem wholeLines_prefix (s : Bytes) : ∃ t, s = wholeLines s ++ t ∧ t.contains NL = false := by
+  induction s with
+  | nil => exact ⟨[], rfl, rfl⟩
+  | cons c r ih =>
+    rw [wholeLines_cons]
+    cases h : (c :: r).contains NL with
+    | false => exact ⟨c :: r, rfl, h⟩
+    | true =>
+      obtain ⟨t, ht, hn⟩ := ih
+      refine ⟨t, ?_, hn⟩
+      simp only [↓reduceIte, List.cons_append]
+      rw [← ht]
+
+/-- … and it is empty or ends with a newline -/
+theorem wholeLines_last (s : Bytes) : wholeLines s = [] ∨ (wholeLines s).getLast? = some NL := by
+  induction s with
+  | nil => exact .inl rfl
+  | cons c r ih =>
+    rw [wholeLines_cons]
+    cases h : (c :: r).contains NL with
+    | false => exact .inl rfl
+    | true =>
+      right
+      simp only [↓reduceIte]
+      rcases ih with ih | ih
+      · rw [ih]
+        have hr := (wholeLines_eq_nil_iff r).1 ih
+        simp only [List.contains_cons, hr, Bool.or_false, beq_iff_eq] at h
+        simp [h]
+      · rw [List.getLast?_cons]
+        simp [ih]
+
 /-! ### `fgets` / `getline` against `wholeLines` -/
 
 theorem fgetsAux_append (n : Nat) (s : Bytes) : (fgetsAux n s).1 ++ (fgetsAux n s).2 = s := by
@@ -398,16 +439,6 @@ theorem lineLoop_whole_fuel {σ : Type} {get : Bytes → Option (Bytes × Bytes)
 
 /-! ### lines as records -/
 
-/-- a file made of whole lines -/
-def joinLines : List Bytes → Bytes
-  | [] => []
-  | l :: ls => l ++ NL :: joinLines ls
-
-/-- how many leading lines are completely (with their newline) inside the first `k` bytes -/
-def wholeLinesBefore : List Bytes → Nat → Nat
-  | [], _ => 0
-  | l :: ls, k => if l.length + 1 ≤ k then 1 + wholeLinesBefore ls (k - (l.length + 1)) else 0
-
 theorem wholeLines_joinLines (ls : List Bytes) : wholeLines (joinLines ls) = joinLines ls := by
   induction ls with
   | nil => rfl
@@ -519,9 +550,6 @@ theorem getline_line (nl : Bool) (l t : Bytes) (hl : l.contains NL = false) (h0 
   rw [fgets_of_ne_nil (by simp)]
   rw [fgetsAux_line _ l t hl (by simp; omega)]
   simp [nlGate, terminated_line l h0]
-
-/-- a line of a text file as the writers produce it: no newline and no NUL inside -/
-def CleanLine (l : Bytes) : Prop := l.contains NL = false ∧ l.contains 0 = false
 
 /-- on a file made of whole lines the `getline` loops (with or without the newline fix) handle
     exactly those lines, in order -/
@@ -828,10 +856,6 @@ theorem readHandlers_whole (fixed : Bool) (mask : Nat) (bits : List Nat) (i : In
       | ok p => obtain ⟨i1, s1⟩ := p; exact ih _ _
       | err e => rfl
       | oob t => rfl
-
-/-- the `info` file cut at its last whole record: the 40-byte binary header, then whole lines -/
-def infoWhole (s : Bytes) : Bytes :=
-  if s.length < 40 then s else s.take 40 ++ wholeLines (s.drop 40)
 
 theorem parseInfo_whole (fixed : Bool) (s : Bytes) :
     parseInfo fixed true (infoWhole s) = parseInfo fixed true s := by
